@@ -542,6 +542,17 @@ def h_map_err(engine, st, fr, callee, argv, m):
     ])
 
 
+def h_or_else(engine, st, fr, callee, argv, m):
+    r, cl = argv
+    f = closure_fn(engine, cl)
+    okp = list(r.variants.get(0, [UNINIT]))
+    errp = list(r.variants.get(1, [UNINIT]))
+    return ("fork", [
+        (r.discr == 0, EnumV("Result", 0, {0: okp}), None),
+        (r.discr != 0, ("frame", f, [cl] + errp, None), None),
+    ])
+
+
 def h_transpose(engine, st, fr, callee, argv, m):
     # Result<Option<T>,E> -> Option<Result<T,E>>
     r = argv[0]
@@ -587,6 +598,7 @@ COMBINATOR_STUBS = [
     (rx(r"^(?:std::option::)?Option::<.*>::(expect|unwrap)$"), lambda e, st, fr, c, a, m: h_expect(e, st, a, m)),
     (rx(r"^std::result::Result::<.*>::and_then::<"), h_and_then),
     (rx(r"^std::result::Result::<.*>::map_err::<"), h_map_err),
+    (rx(r"^std::result::Result::<.*>::or_else::<"), h_or_else),
     (rx(r"^std::result::Result::<Option<.*>::transpose$"), h_transpose),
 ]
 
